@@ -967,6 +967,9 @@ def _process_html_tag(current_token, i, start, state, tokens):
 mark_style_tags.need_walker = False
 
 
+MAX_PAGES_PER_TAG = 2000
+
+
 class ParseUniq:
     def __init__(self, tokens, xopts):
         self.tagextensions = tagext.default_registry
@@ -1143,6 +1146,9 @@ class ParseUniq:
             else:
                 base = vlist.get("index", "")
                 base = nshandler.get_fqname(base, page_ns)
+                # a number in the wikitext must not buy unbounded work: transclude a
+                # bounded number of pages (a scanned book has some hundred)
+                end_index = min(end_index, start_index + MAX_PAGES_PER_TAG - 1)
                 pages = [f"{base}/{i}" for i in range(start_index, end_index + 1)]
 
             rawtext = "".join("{{%s}}\n" % x for x in pages)
